@@ -38,6 +38,7 @@ def judge(c, mo, hist, tag, seed_note):
     st = collections.Counter()
     distinct = set()
     seen = set()
+    missed = {}   # (history, wallet) -> key of the discovery miss of that wallet's restore
 
     def report(h, key, what, line):
         # one report per (history, key)
@@ -92,7 +93,9 @@ def judge(c, mo, hist, tag, seed_note):
                             key = "listing-missing"
                         report(h, key, "wallet %s: issued address (class %s, script hash #%s) is not listed by GetAddresses(%s) [%s %s]" % (w, q[1], q[2], flt, q[3], q[4]), l)
                     elif q[0] == "flag":
-                        key = "used-flag-of-address-paid-before-issue" if q[5] == "prepaid=1" else "used-flag"
+                        # an address the wallet issued although the chain already paid it: only possible after a
+                        # restore that missed it; same finding as the miss itself
+                        key = missed.get((h, w), "used-flag") if (q[5] == "prepaid=1" and q[3] == "impl=0") else "used-flag"
                         report(h, key, "wallet %s: entry (class %s, script hash #%s) has used=%s but the best chain says %s" % (w, q[1], q[2], q[3][5:], q[4][6:]), l)
                     else:
                         report(h, "listing-entry", "wallet %s: malformed entry %s" % (w, p), l)
@@ -102,7 +105,10 @@ def judge(c, mo, hist, tag, seed_note):
             distinct.add(("KS", f[4]))
         elif t == "BAL":
             if f[4] != f[5]:
-                report(h, "balance", "wallet %s reports total %s, the best chain pays its addresses %s" % (f[3], f[4], f[5]), l)
+                key = "balance"
+                if int(f[7]) > 0 and int(f[6]) <= int(f[4]) <= int(f[5]):
+                    key = missed.get((h, f[3]), "balance")
+                report(h, key, "wallet %s reports total %s, the best chain pays its addresses %s (%s without the %s address(es) already paid when this wallet issued them)" % (f[3], f[4], f[5], f[6], f[7]), l)
         elif t == "RX":
             st["rx_" + f[6]] += 1
             if f[4] != f[5]:
@@ -117,6 +123,7 @@ def judge(c, mo, hist, tag, seed_note):
                     key = "discovery-after-reorged-first-payment"
                 else:
                     key = "discovery-incomplete"
+                missed[(h, f[3])] = key
                 report(h, key, "restored wallet %s does not hold paid index(es) %s of %s issued (gapinv=%s reorged=%s)" % (f[3], missing, info.get("issued"), info.get("gapinv"), info.get("reorged")), l)
             else:
                 st["disc_complete"] += 1
@@ -163,11 +170,16 @@ def main(tier, replay=None):
         stw, _ = judge(c, mo, hist, "witness " + name, "/verif/build/bin/c12 -script '" + script.replace("%", "%%") + "'  # history %s")
         want = {"listing": "finding:listing-lost-after-reorged-first-payment", "discovery": "finding:discovery-after-reorged-first-payment",
                 "collision": "finding:gap-window-reads-internal-branch"}[kind]
-        wit[name] = "reproduced on the real wallet" if stw[want] else "NOT reproduced (the implementation no longer shows it)"
+        if kind == "collision":
+            # repaired in /repo (314e4a7): the witness of the code as found must NOT reproduce any more
+            wit[name] = ("STILL reproduced on the real wallet (the repair is gone)" if stw[want]
+                         else "not reproduced: the repaired wallet refuses, as the model with fx=true does")
+        else:
+            wit[name] = "reproduced on the real wallet" if stw[want] else "NOT reproduced (the implementation no longer shows it)"
     c.log("witnesses:", wit)
 
     # 2. generated histories
-    n = 128 if tier == "quick" else 2048
+    n = 128 if tier == "quick" else 1280
     impl = os.path.join(c.workdir, "impl.txt")
     if replay:
         rp = json.load(open(replay))
